@@ -16,7 +16,27 @@ func (e *strErr) Error() string { return e.s }
 // exactly "%s" or "%v" with a string / []byte / error argument yields that
 // text; any other format yields the format string itself (opaque message).
 func Errorf(format string, args ...interface{}) error {
-	return &strErr{s: Sprintf(format, args...)}
+	return &strErr{s: sprintfSimple(format, args...)}
+}
+
+// sprintfSimple is the error-message model: exact for "%s"/"%v" with one operand and for
+// formats without operands; every other format is opaque (error texts built with other
+// verbs are never compared by the harnesses, and formatting symbolic strings with %q
+// would fork per byte).
+func sprintfSimple(format string, args ...interface{}) string {
+	if (format == "%s" || format == "%v") && len(args) == 1 {
+		if s, ok := argText(args[0]); ok {
+			return s
+		}
+	}
+	if len(args) == 0 {
+		for i := 0; i < len(format); i++ {
+			if format[i] == '%' {
+				return format + "%!(MISSING)"
+			}
+		}
+	}
+	return format
 }
 
 func Sprintf(format string, args ...interface{}) string {
